@@ -2,6 +2,7 @@ import SplVerif.Driver.Dump
 import SplVerif.Driver.OpsLex
 import SplVerif.Model.Parser
 import SplVerif.Spec.Grammar
+import SplVerif.Spec.Typing
 
 namespace Spl.Ops
 open Spl Spl.Wire
@@ -109,6 +110,35 @@ def parseOps (op : String) (args : List String) (_impl : String) : Option String
   | "PROPINC", t :: rest =>
     match textOfHex t, parseChanges rest with
     | some text, some cs => some (incProp text cs)
+    | _, _ => none
+  | "SPECDIAG", [t] =>
+    (textOfHex t).map fun s =>
+      match lex s with
+      | .error _ => "n/a"
+      | .ok ts =>
+        match Grammar.parse ts with
+        | some p => if Typing.wellTyped p then "" else "n/a"
+        | none => "n/a"
+  | "JUDGEFAULT", [_, kind, lo, hi] =>
+    match lo.toNat?, hi.toNat? with
+    | some lo, some hi =>
+      -- impl = `!Kind[:args]@a-b!Kind…`
+      let ds := (_impl.splitOn "!").filter (· != "")
+      let parsed := ds.filterMap (fun d =>
+        match d.splitOn "@" with
+        | [m, r] =>
+          match r.splitOn "-" with
+          | [a, b] => match a.toNat?, b.toNat? with
+            | some a, some b => some ((m.splitOn ":").headD "", a, b)
+            | _, _ => none
+          | _ => none
+        | _ => none)
+      if parsed.length != ds.length then some "bad:unparsable-diagnostics"
+      else if parsed.isEmpty then some s!"bad:no-diagnostic-for-{kind}"
+      else if parsed.any (fun (k, _, _) => k != kind) then
+        some s!"bad:diagnostic-of-another-rule:{(parsed.find? (fun (k, _, _) => k != kind)).map (·.1) |>.getD ""}"
+      else if parsed.any (fun (_, a, b) => (a < hi && lo < b) || (a == b && lo ≤ a && a ≤ hi)) then some "ok"
+      else some s!"bad:{kind}-not-on-the-culprit-{lo}-{hi}"
     | _, _ => none
   | "SPECPARSE", [t] =>
     (textOfHex t).map fun s =>
